@@ -65,7 +65,7 @@ def _distinct_times(c, ts):
       c.assume(c.Not(c.eq(ts[i], ts[j])))
 
 
-def _notes_spec(c, n, pitch=(60, 62), drums=False):
+def _notes_spec(c, n, pitch=(60, 62), drums=False, one_instrument=False):
   specs = []
   for i in range(n):
     s = c.real('n%d_s' % i, 0)
@@ -74,7 +74,8 @@ def _notes_spec(c, n, pitch=(60, 62), drums=False):
     specs.append(dict(start_time=s, end_time=e,
                       pitch=c.int('n%d_p' % i, pitch[0], pitch[1]),
                       velocity=c.int('n%d_v' % i, 1, 127),
-                      instrument=c.int('n%d_i' % i, 0, 1),
+                      instrument=0 if one_instrument else c.int(
+                          'n%d_i' % i, 0, 1),
                       is_drum=c.bool('n%d_d' % i) if drums else False))
   for a in range(n):
     for b in range(a + 1, n):
@@ -286,7 +287,100 @@ def h_chord_events(c):
     c.check(ra == rb, 'same chord at every step')
 
 
+def h_midi_export(c):
+  """MIDI export: same PrettyMIDI object model for swapped storage orders."""
+  mio = c.mod('midi_io')
+  which, n, swap = c.params['field'], c.params['n'], c.params['swap']
+  notes = _notes_spec(c, n if which == 'notes' else 1, drums=False)
+  for s in notes:
+    s['instrument'] = c.concretize(s['instrument'])
+    s['program'] = 0
+  qpms = [120.0, 60.0, 240.0]
+  tts = [0] + [c.real('tp%d_t' % i) for i in range(1, n)] if which == 'tempos' \
+      else [0]
+  for t in tts[1:]:
+    c.assume(t > 0)
+  _distinct_times(c, tts)
+  tempos = [dict(time=t, qpm=qpms[i]) for i, t in enumerate(tts)]
+
+  def build(order_notes, order_tempos):
+    ns = c.pb.NoteSequence()
+    ns.ticks_per_quarter = 256
+    for i in order_notes:
+      ns.notes.add(**notes[i])
+    for i in order_tempos:
+      ns.tempos.add(**tempos[i])
+    return ns
+
+  a = build(range(len(notes)), range(len(tempos)))
+  b = build(_order(len(notes), swap if which == 'notes' else None),
+            _order(len(tempos), swap if which == 'tempos' else None))
+
+  def run(ns):
+    pm = mio.note_sequence_to_pretty_midi(ns)
+    times, q = pm.get_tempo_changes()
+    insts = []
+    for ins in pm.instruments:
+      insts.append((ins.program, bool(ins.is_drum),
+                    [(m.pitch, m.velocity, m.start, m.end) for m in ins.notes]))
+    return list(times), list(q), list(pm._tick_scales), insts
+
+  ra, rb = _both(c, run, a, b)
+  if ra is None:
+    return
+  c.check(len(ra[0]) == len(rb[0]) and bool(c.And(
+      [c.And(c.eq(x, y), c.approx(p, q, 1e-9))
+       for x, y, p, q in zip(ra[0], rb[0], ra[1], rb[1])] or [True])),
+          'same tempo map')
+  c.check(len(ra[3]) == len(rb[3]), 'same number of instruments')
+  for (pa, da, na), (pb_, db, nb) in zip(ra[3], rb[3]):
+    c.check(pa == pb_ and da == db and bool(K.multiset_eq(
+        c, na, [(True, k) for k in nb])), 'same notes per instrument')
+
+
+def h_frame_roll(c):
+  """sequence_to_pianoroll: same rolls for swapped note storage order."""
+  sl = c.mod('sequences_lib')
+  n, swap = c.params['n'], c.params['swap']
+  notes = _notes_spec(c, n, pitch=(60, 61), one_instrument=True)
+  tt = c.real('tt', 0)
+  for s in notes:
+    c.assume(s['end_time'] <= tt)
+  fps = c.params['fps']
+  c.assume(tt * fps < c.params['frames'])
+
+  def build(order):
+    ns = c.pb.NoteSequence()
+    for i in order:
+      ns.notes.add(**notes[i])
+    ns.total_time = tt
+    return ns
+
+  def run(ns):
+    r = sl.sequence_to_pianoroll(ns, fps, 60, 61)
+    f = lambda a: [[x for x in row] for row in (
+        a.tolist() if hasattr(a, 'tolist') else a)]
+    return f(r.active), f(r.onsets), f(r.active_velocities)
+
+  ra, rb = _both(c, run, build(_order(n, None)), build(_order(n, swap)))
+  if ra is None:
+    return
+  conds = []
+  for A, B in zip(ra, rb):
+    if len(A) != len(B):
+      c.check(False, 'same roll length')
+      return
+    for rowa, rowb in zip(A, B):
+      for x, y in zip(rowa, rowb):
+        conds.append(c.approx(x, y, 1e-6))
+  # two notes of one pitch sharing a frame paint their velocity in start-time
+  # order; the precondition (no overlap) leaves only the shared boundary frame
+  c.check(c.And(conds or [True]), 'same active / onset / velocity rolls')
+
+
 HARNESSES = {
+    'h_midi_export': h_midi_export,
+    'h_frame_roll': h_frame_roll,
     'h_seq_op': h_seq_op,
     'h_extract_events': h_extract_events,
     'h_chord_events': h_chord_events,
@@ -330,6 +424,17 @@ def jobs(tier):
             required=False)
       add('h_extract_events', type=t, n=2, swap=0, S=6, budget=1800)
   add('h_extract_events', type='pianoroll', n=2, swap=0, S=4, split=False)
+  add('h_midi_export', field='notes', n=2, swap=0)
+  add('h_midi_export', field='tempos', n=2, swap=0)
+  add('h_midi_export', field='tempos', n=3, swap=1, budget=600)
+  add('h_frame_roll', n=2, swap=0, fps=8, frames=4, budget=600)
+  if deep:
+    add('h_midi_export', field='notes', n=3, swap=1, budget=1800)
+    # two exports of a 3-tempo map in one query: the solver may give up
+    # (C03 h_tempo_order decides the same statement functionally)
+    add('h_midi_export', field='tempos', n=3, swap=1, budget=900,
+        required=False)
+    add('h_frame_roll', n=2, swap=0, fps=50, frames=5, budget=1800)
   add('h_chord_events', n=2, swap=0, S=4, start=0, end=4)
   add('h_chord_events', n=2, swap=0, S=5, start=1, end=4)
   if deep:
